@@ -376,7 +376,14 @@ func c08RunState(x *h.Ctx, c c08StateCase) {
 			return
 		}
 	}
-	// final restart: what is on disk must imply the same
+	// the rest of the history arrives, then a final restart: what is on disk must imply the same
+	for ; next < len(order); next++ {
+		if err := addOne(order[next]); err != nil {
+			x.Violate("state-add-rejected-valid", "final: valid transaction %d rejected: %v", order[next], err)
+			return
+		}
+	}
+	f.check(len(c.Ops), "final-add", 777)
 	f.close()
 	f.open()
 	f.check(len(c.Ops), "final-reopen", 12345)
